@@ -1,4 +1,5 @@
 import LexVerif.Proof.ParseIntFormatGrammar
+import LexVerif.Proof.ParseIntFormatTotal
 import LexVerif.Props.C04
 import LexVerif.Props.C11Int
 import LexVerif.Model.Ops.ParseInt
@@ -106,34 +107,47 @@ theorem parseIntFormat_simple_spec (e : Env) (hs : SimpleFmt e.c) (ha : Admissib
 
 /-! ## (b) C10 — totality -/
 
-/-- acceptable results: `Ok` with a count inside the input, `Error::Kind(i)` with `i` inside the input; never the
-model's FAULT (unchecked step / slice / fuel) and never PANIC -/
-def Total (len : Nat) : Res → Prop
-  | .ok (_, n) => n ≤ len
-  | .error (.err _ i) => i ≤ len
-  | .error _ => False
+/-! `Total len r` (`Proof/ParseIntFormatTotal.lean`): `r` is `Ok` with a count `≤ len` or `Error::Kind(i)` with `i ≤ len`;
+never the model's FAULT (unchecked step / slice / fuel) and never PANIC. -/
 
-/-- **C10, full statement (release build)**: every format accepted by `format.is_valid()`. Proved for the
-`SimpleFmt` class (`parseIntFormat_total_partial`); for the other formats (separators, prefix, suffix, leading-zero
-flag) it rests on the correspondence (0 `fault`/`panic` in 170k release ops). -/
+/-- **C10, full statement (release build)**: every format accepted by `format.is_valid()` — separators with any of the
+15 skip predicates, base prefix, base suffix, `no_integer_leading_zeros` included. PROVED: `parseIntFormat_total`. -/
 def parseIntFormat_total_full : Prop :=
   ∀ (e : Env) (s : List Nat), e.c.feats.format = true → e.c.debug = false →
     (formatError e.c.feats e.c.fmt).isNone = true → Admissible e → (∀ b ∈ s, b < 256) →
       Total s.length (parseIntFormat e s)
+
+/-- **C10 (release) for the integer parser of `format` builds**: for every feature set, every format that passes
+`format.is_valid()`, every integer type / radix / `no_multi_digit`, complete and partial, and EVERY byte list the model
+returns `Ok` with a count `≤ length` or `Error::Kind(i)` with `i ≤ length`; the unchecked steps
+(`step_unchecked`, `step_by_unchecked`, `take_n`'s `from_parts` / `set_cursor`) stay inside the buffer, no digit loop
+runs out of fuel, the `usize` subtractions `cursor - zeros`, `cursor - 1`, `cursor - start_index` of the paths that
+use their result as an index do not wrap, `unreachable!()` is not reached. (No hypothesis on type / radix / bytes is
+needed: wrapping arithmetic is total.) -/
+theorem parseIntFormat_total (e : Env) (hd : e.c.debug = false)
+    (hv : (formatError e.c.feats e.c.fmt).isNone = true) (s : List Nat) : Total s.length (parseIntFormat e s) :=
+  parseIntFormat_total_rel (LexVerif.Proof.PNTotal.rel_of_valid e.c hd hv) s
+
+theorem parseIntFormat_total_full_holds : parseIntFormat_total_full :=
+  fun e s _ hd hv _ _ => parseIntFormat_total e hd hv s
+
+/-- non-vacuity: the format of the debug-panic witness below (prefix, suffix, separator with I+L+T+C) is valid -/
+example : (formatError { powerOfTwo := true, radix := true, format := true }
+    ⟨0x101010687800005f000002490000000c⟩).isNone = true := by decide
 
 theorem parseIntFormat_total_partial (e : Env) (hs : SimpleFmt e.c) (ha : Admissible e) (s : List Nat)
     (hb : ∀ b ∈ s, b < 256) : Total s.length (parseIntFormat e s) := by
   rw [parseIntFormat_simple_spec e hs ha s hb]
   unfold signGate
   split
-  · simp [Total, err]
+  · simp [Proof.PIF.Total, err]
   · split
-    · simp [Total, err]
+    · simp [Proof.PIF.Total, err]
     · split
-      · simp [Total]
+      · simp [Proof.PIF.Total]
       · have := C04.spec_index_le_length e.t e.radix e.partial_ s
         cases h : Spec.parseInt e.t e.radix e.partial_ s <;> simp [h, C04.PRes.index] at this <;>
-          simp [ofM, Total, err, this]
+          simp [ofM, Proof.PIF.Total, err, this]
 
 /-- radix 16, prefix `x`, suffix `h`, separator `_` with integer flags I+L+T+C (catalogue: `int_prefix_suffix_sep_iltc`) -/
 def fmtSuffixSep : Format := ⟨0x101010687800005f000002490000000c⟩
